@@ -21,10 +21,13 @@ from . import pipeline as P
 from . import runs as R
 
 
-def digest_run(scn, base, plan, files, gate_seed, trace=False):
+def digest_run(scn, base, plan, files, gate_seed, trace=False, path_fault=None):
     from .c03 import make_gate
+    hook = None
+    if path_fault:
+        hook, _ = R.path_fault_hook(path_fault)
     res = P.run_tool(scn, base, faults=R.realise_plan(plan, files), upstream_files=files,
-                     gate=make_gate(gate_seed) if gate_seed is not None else None, trace=trace)
+                     gate=make_gate(gate_seed) if gate_seed is not None else None, trace=trace, on_event=hook)
     tree = {}
     for r in scn.repos:
         t = P.tree_listing(base / "mirror" / P.repo_dir(r["url"]))
@@ -41,7 +44,7 @@ def worker_main(path):
     scn = P.Scenario(j["repos"], nthreads=j["nthreads"])
     files = R.files_of(scn)
     base = Path(j["base"])
-    d, _ = digest_run(scn, base, j["plan"], files, j["gate_seed"])
+    d, _ = digest_run(scn, base, j["plan"], files, j["gate_seed"], path_fault=j.get("path_fault"))
     print("DIGEST " + json.dumps(d, sort_keys=True))
 
 
@@ -69,11 +72,24 @@ def run_case(rep, scn, case, sb, tag, n_orders, n_seeds):
     files = R.files_of(scn)
     plan = R.gen_fault_plan(rng, scn, files, density=rng.choice([0, 1, 2, 3]))
     found = False
+    path_fault = None
+    if rng.random() < 0.4:
+        # a schedule-independent local I/O error on one pool file, other pool directories under ignore_errors
+        for r in scn.repos:
+            pool = sorted(p for p in files[r["url"]] if p.startswith("pool/"))
+            if len(pool) >= 2:
+                victim = rng.choice(pool)
+                others = sorted({"/".join(p.split("/")[:4]) for p in pool
+                                 if "/".join(p.split("/")[:4]) != "/".join(victim.split("/")[:4])})
+                if others:
+                    r["config"]["ignore_errors"] = rng.sample(others, min(len(others), rng.randint(1, 3)))
+                    path_fault = victim
+                    break
     digests = []
     labels = []
     for k in range(n_orders):
         base = sb / f"{tag}_o{k}"
-        d, res = digest_run(scn, base, plan, files, None if k == 0 else case["seed"] + k)
+        d, res = digest_run(scn, base, plan, files, None if k == 0 else case["seed"] + k, path_fault=path_fault)
         digests.append(json.loads(json.dumps(d, sort_keys=True)))
         labels.append(f"order{k}")
         shutil.rmtree(base, ignore_errors=True)
@@ -81,7 +97,7 @@ def run_case(rep, scn, case, sb, tag, n_orders, n_seeds):
         base = sb / f"{tag}_h{k}"
         job = sb / f"{tag}_h{k}.json"
         job.write_text(json.dumps({"repos": scn.repos, "nthreads": scn.nthreads, "plan": plan, "base": str(base),
-                                   "gate_seed": case["seed"] + 100 + k}))
+                                   "gate_seed": case["seed"] + 100 + k, "path_fault": path_fault}))
         env = dict(os.environ, PYTHONHASHSEED=str(rng.randint(1, 10 ** 6)))
         p = subprocess.run([sys.executable, "-m", "harness.c15", "--worker", str(job)], env=env, cwd=str(C.VERIF),
                            stdout=subprocess.PIPE, stderr=subprocess.PIPE, text=True, timeout=300)
